@@ -2,7 +2,7 @@
     the matdyn reader returns the printed fields.
     Models: theories/EvecSortModel.v, Disp2EigModel.v, MatdynModel.v (tied to /repo by the
     correspondence run of tools/props/c20.py).  Lemmas: EvecSort.v, Disp2Eig.v, Matdyn.v. *)
-From Coq Require Import List Arith Bool QArith Reals Permutation Ascii String.
+From Coq Require Import Ascii String List Arith Bool QArith Reals Permutation.
 From Cij Require Import Ops ROps EvecSortModel EvecSort Disp2EigModel Disp2Eig MatdynModel Matdyn.
 Import ListNotations.
 
@@ -17,7 +17,7 @@ Theorem greedy_recovers_row_dominant :
       (forall i j, (i < n)%nat -> (j < n)%nat -> ~ lt (ent z M i j) z) ->
       (forall i j, (i < n)%nat -> (j < n)%nat -> j <> sigma i -> lt (ent z M i j) (ent z M i (sigma i))) ->
       greedy z gtb items M = map (fun i => nth_error items (sigma i)) (seq 0 n).
-Proof. exact greedy_recovers_row_dominant_sec. Qed.
+Proof. exact (@greedy_recovers_row_dominant_sec). Qed.
 
 (** DESIGN form, over Q *)
 Theorem greedy_recovers_dominant_perm :
@@ -79,6 +79,12 @@ Theorem dimension_mismatch_rejected :
      (exists row, In row a /\ length row <> (3 * length mass)%nat) -> @disp2eig_c R ROps a mass = None).
 Proof. exact (conj disp2eig_mismatch_rejected_l disp2eig_c_mismatch_rejected_l). Qed.
 
+(* ------------------------------------------------------------------ evec_load *)
+Theorem matdyn_roundtrip :
+  forall nq np (d : list qpoint), well_formed nq np d ->
+    parse_matdyn nq np (print_matdyn d) = Some d.
+Proof. exact matdyn_roundtrip_l. Qed.
+
 Print Assumptions greedy_recovers_row_dominant.
 Print Assumptions greedy_recovers_dominant_perm.
 Print Assumptions sort_result_is_permutation.
@@ -87,3 +93,4 @@ Print Assumptions evec_sort_dimension_mismatch_rejected.
 Print Assumptions disp2eig_unit_norm.
 Print Assumptions disp2eig_restores_basis.
 Print Assumptions dimension_mismatch_rejected.
+Print Assumptions matdyn_roundtrip.
